@@ -77,7 +77,7 @@ def judge(E, name, clause, hyps, goal, source, timeout_ms, witness_terms=None, e
     """Discharge one obligation; a conjunctive goal is discharged conjunct by conjunct (same hypotheses),
     which is equivalent and much easier for the solver."""
     if not isinstance(goal, bool):
-        g = z3.simplify(goal) if False else goal
+        g = goal
         if z3.is_and(g) and g.num_args() > 1:
             parts = [judge1(E, name, clause, hyps, g.arg(i), source, timeout_ms, witness_terms, extra, path_idx, exclude)
                      for i in range(g.num_args())]
